@@ -2,6 +2,7 @@ package node
 
 import (
 	"fmt"
+	"net/url"
 	"reflect"
 	"strings"
 
@@ -11,12 +12,12 @@ import (
 
 func EncodeKey(v []val.Value) string {
 	var s string
-	// TODO: read RFC and escape chars including commas
 	for i, val := range v {
 		if i > 0 {
-			s += "," + val.String()
+			s += ","
 		}
-		s += val.String()
+		// escaped the way parseUrlPath unescapes, so commas etc. inside a key survive
+		s += url.QueryEscape(val.String())
 	}
 	return s
 }
